@@ -255,6 +255,8 @@ class Repo:
     for stmt in node.body:
       if isinstance(stmt, (ast.FunctionDef, ast.AsyncFunctionDef)):
         fi = FuncInfo(mi, f'{node.name}.{stmt.name}', stmt, ci)
+        if any(d.split('.')[-1] == 'overload' for d in fi.decorators):
+          continue  # typing stubs, not the implementation
         # keep the getter for properties with setters
         if stmt.name in ci.methods and any(
             d.endswith('.setter') for d in fi.decorators
